@@ -24,7 +24,7 @@ from .. import gen as G
 from . import util as U
 
 PID = "C17"
-BUILDS = ["o0", "o2", "o3", "clang", "san"]
+BUILDS = ["o0", "o2", "o3", "clang", "san", "msan"]  # msan: clang MemorySanitizer - a result must not depend on uninitialised memory
 ALLOWED_GLOBALS = {"g_external_type_registry"}
 
 
@@ -84,14 +84,22 @@ def run(tier):
                     planted[dd] = True
                 docs.append(b"#{" + x + b" " + y + b" " + fl + b"}")
                 planted[docs[-1]] = False
+        # inputs that end inside a marker / token, read with and without an end-of-input value (exercises flags that are only
+        # written on some paths)
+        tails = [b"#", b"#_", b"#_ignored #", b"  #", b"#_#", b"#foo", b"#_ x #", b"^", b"^:a", b"[1 #", b"\\", b"\"", b"1e", b"#:", b"##", b"[1 2", b"#_ 1", b"  "]
+        docs += tails
         docs = [d for d in docs if d]
         opts = [rng.choice([0, 0, 1, 8, 9, 10, 12]) for _ in docs]
+        for j in range(len(tails)):
+            opts[-1 - j] = 1
+        docs += tails
+        opts += [0] * len(tails)
         lines = ["M %d %s" % (o, C.hexs(d)) for o, d in zip(opts, docs)]
         model, _ = K.run_model(cfg, ["R" + l[1:] for l in lines])
         # (a) builds
         outs = {}
         for b in BUILDS:
-            o, crashes = K.run_impl(cfg, lines, mode=b)
+            o, crashes = K.run_impl(cfg, lines, mode=b, env={"MSAN_OPTIONS": "halt_on_error=1"})
             outs[b] = o
             rep.count("reads/%s/%s" % (b, cfg), len(lines))
             for idx, rc, err in crashes:
